@@ -127,6 +127,10 @@ def parse_mask(text):
         if not n.isdigit():
             return None
         n = int(n)
+        # "missing trailing bits, as in 192.168/16" (iauth.h): the octets given are the leading ones
+        m = re.match(r"^\d+\.\d+(\.\d+)?$", a)
+        if m:
+            a = a + (".0" if m.group(1) else ".0.0")
     else:
         a, n = text, None
     try:
